@@ -64,7 +64,7 @@ def main():
         # repository from $EON_REPO, default /repo), so that long background runs on /repo are not disturbed; with --in-repo the
         # patch is applied to /repo itself (git -C /repo apply) and undone straight afterwards (git -C /repo checkout -- .)
         in_repo = '--in-repo' in sys.argv
-        env = None
+        env = {'VERIF_EVIDENCE_DIR': os.path.join(VERIF, 'evidence-other-tree')}     # never overwrite the real tree's evidence
         if in_repo:
             st, o = sh('git -C /repo status --porcelain --untracked-files=no')
             if o.strip():
@@ -72,7 +72,7 @@ def main():
                 return finish(out, patch, demo)
             sh('git -C /repo apply %s' % patch)
         else:
-            env = {'EON_REPO': wt}
+            env['EON_REPO'] = wt
         try:
             res = {}
             for c in checks:
